@@ -119,6 +119,12 @@ def bounded(tier, seed):
         # a file part whose filename is EMPTY (what a browser sends for an empty file input) is still a file part: its bytes do
         # not count as field data
         [("a", None, None, b"12"), ("f", "", "application/octet-stream", b"0123456789" * 3)],
+        # quoted-string syntax in the Content-Disposition parameters: an escaped quote followed by ';' INSIDE the quotes does
+        # not end the parameter - a field whose NAME spells `";filename="x` stays a field (its bytes count), a file whose field
+        # name contains `";` stays a file (its bytes do not)
+        [("a\\\";filename=\\\"x", None, None, b"12345")],
+        [("f\\\";x", "big.bin", "application/octet-stream", b"0123456789" * 3), ("a", None, None, b"12")],
+        [("a;b", None, None, b"123"), ("q\\\"q", "n;m.bin", None, b"0123456789")],
     ]
     for parts in forms:
         n = len(parts)
